@@ -41,6 +41,10 @@ type memConn struct {
 	s2c         []byte
 	closed      bool
 	readWaiting bool
+	// environment controls (a slow or stalled client; no clock involved)
+	stallWrites  bool // server Write blocks until released
+	writeWaiting int  // number of server goroutines blocked in Write
+	yieldInWrite bool // server Write yields the processor once before completing
 }
 
 func newMemConn() *memConn {
@@ -75,7 +79,19 @@ func (m *memConn) Read(p []byte) (int, error) {
 
 func (m *memConn) Write(p []byte) (int, error) {
 	m.mu.Lock()
+	yield := m.yieldInWrite
+	m.mu.Unlock()
+	if yield {
+		runtime.Gosched()
+	}
+	m.mu.Lock()
 	defer m.mu.Unlock()
+	for m.stallWrites && !m.closed {
+		m.writeWaiting++
+		m.cond.Broadcast()
+		m.cond.Wait()
+		m.writeWaiting--
+	}
 	if m.closed {
 		return 0, net.ErrClosed
 	}
@@ -109,6 +125,25 @@ func (m *memConn) clientEOF() {
 	m.c2sEOF = true
 	m.cond.Broadcast()
 	m.mu.Unlock()
+}
+
+func (m *memConn) setStall(on bool) {
+	m.mu.Lock()
+	m.stallWrites = on
+	m.cond.Broadcast()
+	m.mu.Unlock()
+}
+
+func (m *memConn) setYield(on bool) {
+	m.mu.Lock()
+	m.yieldInWrite = on
+	m.mu.Unlock()
+}
+
+func (m *memConn) writersStalled() int {
+	m.mu.Lock()
+	defer m.mu.Unlock()
+	return m.writeWaiting
 }
 
 func (m *memConn) state() (closed, blockedEmpty bool) {
@@ -273,6 +308,21 @@ type WSCase struct {
 	Part        string    `json:"part"`
 	Subprotocol string    `json:"subprotocol"`
 	Frames      []WSFrame `json:"frames"`
+	// Mode "" plays every frame step-wise (send, wait for quiescence). With "stall" or
+	// "burst" the frames from index Active on form one group around a running operation:
+	//   stall: the client stops draining the socket, Frames[Active] (a subscription) is sent,
+	//          the harness waits until a server goroutine is stuck inside its socket write
+	//          (holding the connection's write lock), sends the rest of the group, waits until
+	//          the read loop is stuck behind that lock (or went back to reading, or Do
+	//          returned), and only then drains the socket again;
+	//   burst: the whole group is sent at once and runs freely (socket writes yield the
+	//          processor once, like a write that deschedules).
+	Mode       string   `json:"mode,omitempty"`
+	Active     int      `json:"active,omitempty"`
+	ExpNext    int      `json:"exp_next,omitempty"`  // >0: id "1" must get exactly this many results, then complete
+	ExpPongs   []string `json:"exp_pongs,omitempty"` // payloads ("" = none) the pongs must carry, as a multiset
+	CheckPongs bool     `json:"check_pongs,omitempty"`
+	Rep        int      `json:"rep,omitempty"`
 }
 
 type WSMsg struct {
@@ -303,6 +353,10 @@ type WSObs struct {
 	LateHookMsg string   `json:"late_hook_msg,omitempty"`
 	Alive       bool     `json:"alive"` // every frame was sent and the server still waited for more
 	FramesSent  int      `json:"frames_sent"`
+	Deadlock    string   `json:"deadlock,omitempty"` // the connection's goroutines, when they deadlocked
+	// stall/burst group
+	GroupAlive     bool `json:"group_alive,omitempty"`     // connection still open after the group
+	StalledWriters int  `json:"stalled_writers,omitempty"` // goroutines stuck in the socket write when the socket was drained again
 }
 
 const hangGuard = 10 * time.Second
@@ -321,36 +375,173 @@ func goroutineDump() string {
 const wsFn = "graphql/handler/transport.(*wsConnection)"
 
 type wsSession struct {
-	conn  *memConn
-	done  atomic.Bool
-	start time.Time
+	conn     *memConn
+	done     atomic.Bool
+	start    time.Time
+	deadlock string // set when quiesce found the connection's goroutines deadlocked
+}
+
+// ---- goroutine inspection (states, never durations) -----------------------------------------------
+
+type gInfo struct{ id, state, text string }
+
+// leakedGoroutines: goroutines of earlier, deadlocked sessions. They can never run again and
+// are ignored by every later inspection.
+var leakedGoroutines = map[string]bool{}
+
+// connGoroutines returns the live goroutines that belong to websocket connection code.
+func connGoroutines() []gInfo {
+	var out []gInfo
+	for _, g := range strings.Split(goroutineDump(), "\n\n") {
+		if !strings.Contains(g, wsFn) || !strings.HasPrefix(g, "goroutine ") {
+			continue
+		}
+		head := g[len("goroutine "):]
+		sp := strings.IndexByte(head, ' ')
+		lb, rb := strings.IndexByte(head, '['), strings.IndexByte(head, ']')
+		if sp < 0 || lb < 0 || rb < lb {
+			continue
+		}
+		id := head[:sp]
+		if leakedGoroutines[id] {
+			continue
+		}
+		state := head[lb+1 : rb]
+		if c := strings.IndexByte(state, ','); c >= 0 {
+			state = state[:c] // drop ", 2 minutes" style annotations
+		}
+		out = append(out, gInfo{id, state, g})
+	}
+	return out
+}
+
+func anyCreatedBySubscribe(gs []gInfo) bool {
+	for _, g := range gs {
+		if strings.Contains(g.text, subscribeCreated) {
+			return true
+		}
+	}
+	return false
+}
+
+// runLoopBehindLock: the goroutine running wsConnection.run is acquiring a sync.Mutex that is
+// not the in-memory conn's own (i.e. wsConnection.mu, held by the stalled writer).
+func runLoopBehindLock(gs []gInfo) bool {
+	for _, g := range gs {
+		if strings.Contains(g.text, wsFn+".run(") {
+			return strings.Contains(g.text, "sync.(*Mutex).lockSlow") && !strings.Contains(g.text, "main.(*memConn)")
+		}
+	}
+	return false
+}
+
+// deadlockSignature: every goroutine of the connection is parked, at least one of them on a
+// sync.Mutex, and none of them waits for the environment (the in-memory conn). Only these
+// goroutines or the environment could ever wake them (the server is configured without
+// tickers or timeouts), so no progress is possible. Returns "" when that is not the case.
+func deadlockSignature(gs []gInfo) string {
+	if len(gs) == 0 {
+		return ""
+	}
+	onMutex := false
+	var sig []string
+	for _, g := range gs {
+		switch g.state {
+		case "sync.Mutex.Lock":
+			onMutex = true
+		case "chan receive", "select", "sync.Cond.Wait", "semacquire", "sync.WaitGroup.Wait":
+		default:
+			return "" // running, runnable, syscall, IO wait, ...
+		}
+		if strings.Contains(g.text, "main.(*memConn)") {
+			return ""
+		}
+		sig = append(sig, g.id+":"+g.state)
+	}
+	if !onMutex {
+		return ""
+	}
+	sortStrings(sig)
+	return strings.Join(sig, " ")
 }
 
 // quiesce spins (yielding, no clock in the decision) until the server side can make no
 // further progress on its own. Returns "idle" (server waits for the next frame),
-// "closed" (Do returned and the connection was closed) or "open" (Do returned, nothing
-// of the connection's goroutines is left, and nobody closed the connection).
+// "closed" (Do returned and the connection was closed), "open" (Do returned, nothing
+// of the connection's goroutines is left, and nobody closed the connection) or "deadlock"
+// (see deadlockSignature; observed identically on three consecutive inspections).
 func (s *wsSession) quiesce() string {
+	lastDead, deadSeen := "", 0
 	for spins := 0; ; spins++ {
 		closed, blocked := s.conn.state()
-		if s.done.Load() {
-			if !strings.Contains(goroutineDump(), wsFn) {
-				closed, _ = s.conn.state()
-				if closed {
-					return "closed"
-				}
-				return "open"
+		gs := connGoroutines()
+		if s.done.Load() && len(gs) == 0 {
+			closed, _ = s.conn.state()
+			if closed {
+				return "closed"
 			}
-		} else if blocked && !closed {
-			if !strings.Contains(goroutineDump(), "created by github.com/99designs/gqlgen/"+wsFn+".subscribe") {
-				// re-check: still blocked on an empty buffer => nothing happened in between
-				if _, b2 := s.conn.state(); b2 && !s.done.Load() {
-					return "idle"
-				}
+			return "open"
+		}
+		if !s.done.Load() && blocked && !closed && !anyCreatedBySubscribe(gs) {
+			// re-check: still blocked on an empty buffer => nothing happened in between
+			if _, b2 := s.conn.state(); b2 && !s.done.Load() {
+				return "idle"
 			}
+		}
+		if d := deadlockSignature(gs); d != "" && s.conn.writersStalled() == 0 {
+			if d == lastDead {
+				deadSeen++
+			} else {
+				lastDead, deadSeen = d, 1
+			}
+			if deadSeen >= 3 {
+				var sb strings.Builder
+				for _, g := range gs {
+					leakedGoroutines[g.id] = true
+					lines := strings.Split(g.text, "\n")
+					for i, l := range lines {
+						if i == 0 || (strings.Contains(l, "gqlgen/graphql/handler/transport.") && !strings.HasPrefix(l, "\t")) {
+							sb.WriteString(stripArgs(l) + " <- ")
+						}
+					}
+					sb.WriteString("| ")
+				}
+				s.deadlock = sb.String()
+				return "deadlock"
+			}
+		} else {
+			lastDead, deadSeen = "", 0
 		}
 		if spins%64 == 63 && time.Since(s.start) > hangGuard {
 			common.Broken("websocket session did not quiesce within %v (hang guard; not a verdict)\n%s", hangGuard, goroutineDump())
+		}
+		runtime.Gosched()
+	}
+}
+
+// stripArgs removes goroutine numbers and argument/pointer lists so that the text is stable.
+func stripArgs(l string) string {
+	if strings.HasPrefix(l, "goroutine ") {
+		if i := strings.IndexByte(l, '['); i >= 0 {
+			return l[i:]
+		}
+	}
+	if i := strings.Index(l, " in goroutine "); i >= 0 {
+		l = l[:i]
+	}
+	if i := strings.LastIndexByte(l, '('); i >= 0 && strings.HasSuffix(l, ")") {
+		return l[strings.LastIndex(l[:i], "/")+1 : i]
+	}
+	return l
+}
+
+const subscribeCreated = "created by github.com/99designs/gqlgen/" + wsFn + ".subscribe"
+
+// waitFor spins (yielding) until the state predicate holds; the clock is only the hang guard.
+func (s *wsSession) waitFor(pred func() bool) {
+	for spins := 0; !pred(); spins++ {
+		if spins%64 == 63 && time.Since(s.start) > hangGuard {
+			common.Broken("websocket session: awaited state not reached within %v (hang guard; not a verdict)\n%s", hangGuard, goroutineDump())
 		}
 		runtime.Gosched()
 	}
@@ -481,6 +672,55 @@ func (r *rig) runWS(c *WSCase) WSObs {
 			continue
 		}
 		f := &c.Frames[i]
+		if c.Mode != "" && i == c.Active {
+			rest := c.Frames[i+1:]
+			switch c.Mode {
+			case "stall":
+				conn.setStall(true)
+				conn.clientSend(clientFrame(f.Op, f.Data))
+				s.waitFor(func() bool { // a writer is stuck, or nothing will ever write
+					if conn.writersStalled() > 0 || s.done.Load() {
+						return true
+					}
+					_, blocked := conn.state()
+					return blocked && !anyCreatedBySubscribe(connGoroutines())
+				})
+				var burst []byte
+				for _, g := range rest {
+					burst = append(burst, clientFrame(g.Op, g.Data)...)
+				}
+				conn.clientSend(burst)
+				s.waitFor(func() bool { // the read loop cannot get further on its own
+					if s.done.Load() {
+						return true
+					}
+					if _, blocked := conn.state(); blocked {
+						return true
+					}
+					return runLoopBehindLock(connGoroutines())
+				})
+				o.StalledWriters = conn.writersStalled()
+				conn.setStall(false)
+			case "burst":
+				conn.setYield(true)
+				burst := clientFrame(f.Op, f.Data)
+				for _, g := range rest {
+					burst = append(burst, clientFrame(g.Op, g.Data)...)
+				}
+				conn.clientSend(burst)
+			}
+			step.Sent = true
+			o.FramesSent += 1 + len(rest)
+			st = s.quiesce()
+			step.Out, _ = collect()
+			step.Hook, step.HookMsg = r.hook.take()
+			step.State = st
+			closedSeen = true // the group is the end of the scripted part
+			o.GroupAlive = st == "idle" && !hasClose(step.Out)
+			step.Closed = st == "closed" || hasClose(step.Out)
+			o.Steps = append(o.Steps, step)
+			continue
+		}
 		conn.clientSend(clientFrame(f.Op, f.Data))
 		step.Sent = true
 		o.FramesSent++
@@ -496,7 +736,14 @@ func (r *rig) runWS(c *WSCase) WSObs {
 	}
 	o.Alive = !closedSeen
 	conn.clientEOF()
-	o.EndState = s.quiesce()
+	if s.deadlock == "" {
+		o.EndState = s.quiesce()
+	}
+	if s.deadlock != "" {
+		// nothing of this connection can ever run again; its goroutines are written off
+		o.EndState, o.Deadlock = "deadlock", s.deadlock
+		conn.Close()
+	}
 	o.Final, _ = collect()
 	o.LateHook, o.LateHookMsg = r.hook.take()
 	if len(pending) > 0 && o.Bad == "" {
@@ -538,6 +785,9 @@ func judgeWS(c *WSCase, o *WSObs) []struct{ Class, Kind, What string } {
 		f := c.Frames[i]
 		if !st.Sent {
 			continue
+		}
+		if c.Mode != "" && i == c.Active && len(c.Frames) > i+1 {
+			f.Class = c.Frames[i+1].Class + "(during-operation)" // f is a copy
 		}
 		lastClass = f.Class
 		if st.Hook > 0 {
@@ -590,6 +840,44 @@ func judgeWS(c *WSCase, o *WSObs) []struct{ Class, Kind, What string } {
 				fs = append(fs, F{f.Class, "wrong-data", fmt.Sprintf("frame %d: data frames %v, expected exactly %s (server sent %v)", i, data, f.Data2, st.Out)})
 			}
 		}
+	}
+	if c.Mode != "" && len(o.Steps) > c.Active && o.Steps[c.Active].Sent && o.Escaped == "" && o.Bad == "" && o.Steps[c.Active].Hook == 0 {
+		groupClass := "ws-active-operation"
+		if len(c.Frames) > c.Active+1 {
+			groupClass = c.Frames[c.Active+1].Class + "(during-operation)"
+		}
+		var nexts, completes int
+		var pongs []string
+		for _, m := range o.Steps[c.Active].Out {
+			switch {
+			case (m.Type == "data" || m.Type == "next") && m.ID == "1":
+				nexts++
+			case m.Type == "complete" && m.ID == "1":
+				completes++
+			case m.Type == "pong":
+				pongs = append(pongs, m.Payload)
+			}
+		}
+		if c.ExpNext > 0 && (nexts != c.ExpNext || completes != 1) {
+			fs = append(fs, F{groupClass, "wrong-data", fmt.Sprintf("operation 1 delivered %d results and %d complete, expected %d and 1; server sent %v", nexts, completes, c.ExpNext, o.Steps[c.Active].Out)})
+		}
+		if c.CheckPongs {
+			want := append([]string(nil), c.ExpPongs...)
+			got := append([]string(nil), pongs...)
+			sortStrings(want)
+			sortStrings(got)
+			same := len(want) == len(got)
+			for i := 0; same && i < len(want); i++ {
+				same = want[i] == got[i] || (want[i] != "" && got[i] != "" && jsonEqual(want[i], got[i]))
+			}
+			if !same {
+				fs = append(fs, F{groupClass, "pong-mismatch", fmt.Sprintf("pongs carried %q, pings carried %q", got, want)})
+			}
+		}
+	}
+	if o.Deadlock != "" {
+		fs = append(fs, F{lastClass, "deadlock", "every goroutine of the connection is parked on a lock or channel and none waits for the client: " + clip(o.Deadlock, 600)})
+		return fs
 	}
 	if lateHook > 0 {
 		fs = append(fs, F{lastClass, panicKind(lateMsg), "recover hook ran after the client's EOF: " + clip(lateMsg, 160)})
